@@ -2,7 +2,7 @@
    [step true]/[run true] is the code as repaired in /repo (remove deletes the height key of the
    removed group); [step false] is remove as originally written (Put(key(count), pre.Id)). *)
 From Coq Require Import List NArith.
-From V.C19 Require Import Model Proofs.
+From V.C19 Require Import Model Proofs Sched.
 Import ListNotations.
 Local Open Scope N_scope.
 
@@ -82,6 +82,44 @@ Theorem C19_original_without_remove : forall g0 ops, genesis_ok g0 -> Forall op_
   Forall no_remove ops -> Spec g0 (fst (run false g0 (init g0) ops)).
 Proof. exact original_without_remove. Qed.
 Print Assumptions C19_original_without_remove.
+
+(* ---- "at all times": interleavings of concurrent callers (Model.v: tstep / crun) ----
+   AddGroup is three steps (Has(id) without lock; CheckGroup without lock; parent/PreGroup checks and
+   save in one critical section), remove(last) and removeFromCommonAncestor are one step each; a fork
+   switch is a thread that stops at the first refusal.  [InvC] = the weak invariant plus "every listed
+   group has the PreGroup its id determines" ([pre_of]: ids are bound to the group by CheckGroup). *)
+Theorem C19_schedules_init : forall g0 pre_of, cons_g pre_of g0 -> InvC g0 pre_of (init g0).
+Proof. exact invc_init. Qed.
+Print Assumptions C19_schedules_init.
+
+(* For the code as it is, under every schedule of any number of threads (hence at every moment: every
+   prefix of a schedule is a schedule) the invariant and the property hold. *)
+Theorem C19_schedules_locked : forall g0, genesis_ok g0 -> forall pre_of s ts sched,
+  InvC g0 pre_of s -> Forall (thread_ok pre_of) ts ->
+  let s' := fst (crun true g0 s ts sched) in InvC g0 pre_of s' /\ Spec g0 s'.
+Proof. exact locked_schedules. Qed.
+Print Assumptions C19_schedules_locked.
+
+(* If the link checks run before CheckGroup and the write lock covers save alone (check-then-act), two
+   competing successors of one group break the property: both AddGroup calls return nil, count = 3, the
+   predecessor walk from the last group has 2 groups. The same threads satisfy the hypotheses of
+   C19_schedules_locked. *)
+Theorem C19_schedules_check_then_act_refuted :
+  genesis_ok rg0 /\ Forall (thread_ok rpre) rts /\ cons_g rpre rg0 /\
+  let r := crun false rg0 (init rg0) rts rsched in
+  count (fst r) = 3 /\ map gid (walk 5 (fst r) (last (fst r))) = [2; 1] /\
+  map rets (snd r) = [[0]; [0]] /\ ~ Spec rg0 (fst r).
+Proof. exact check_then_act_refuted. Qed.
+Print Assumptions C19_schedules_check_then_act_refuted.
+
+(* The proviso of C19_schedules_locked is necessary: were two different groups with one id accepted,
+   the Has(id) answer read outside the lock goes stale and the code as it is saves a predecessor cycle. *)
+Theorem C19_schedules_locked_needs_id_binding :
+  let r := crun true rg0 (init rg0) qts qsched in
+  count (fst r) = 4 /\ map gid (walk 6 (fst r) (last (fst r))) = [2; 3; 2; 3; 2; 3] /\
+  map rets (snd r) = [[0]; [0; 0]] /\ ~ Spec rg0 (fst r).
+Proof. exact locked_needs_id_binding. Qed.
+Print Assumptions C19_schedules_locked_needs_id_binding.
 
 (* Non-vacuity: a history with add, remove, re-add of a different group at the same height, a fork
    switch, the loss of sqlite rows and restarts satisfies the hypotheses (the index is settled: the last
